@@ -63,6 +63,10 @@ def run(ctx):
     cases += pfam.scripts(ctx.rng.fork("scripts"), n, wild=0.15, mutate=0.05)
     cases += [(d, t, "tree-first") for d, t in pfam.tree_texts(ctx.rng.fork("trees"), 120 if ctx.quick else 3000)]
     cases += [(d, t, "operator-pairs") for d in (("MYSQL", "HIVE") if ctx.quick else ("MYSQL", "HIVE", "DB2", "DEFAULT")) for t in pfam.operator_pairs(d)]
+    # every complete small expression in every host that brackets its operand by a rule of its own (tools/harness/smallscope.py)
+    import smallscope
+    ht = smallscope.host_texts(ctx, 2 if ctx.quick else 3)
+    cases += [(d, t, "hosts-x-expressions") for d in (("HIVE",) if ctx.quick else ("HIVE", "MYSQL")) for t in ht]
     # correspondence: parse, print in the same dialect, print in another dialect
     r = ctx.rng.fork("dialects")
     reqs = [pfam.req_parse(d, t) for d, t, _ in cases]
